@@ -80,6 +80,10 @@ def opOf? : Term → Option Op
   | .list [.atom "showl", st, n, p, pos] => do
       let _ ← natLe? 3 pos
       pure (.display true (← stateOf? st) (← netOf? n) (← pathOf? p))
+  | .list [.atom "showk", st, n, p] => do pure (.display true (← stateOf? st) (← netOf? n) (← pathOf? p))
+  | .list [.atom "showk", st, n, p, pos] => do
+      let _ ← natLe? 3 pos
+      pure (.display true (← stateOf? st) (← netOf? n) (← pathOf? p))
   | .list [.atom "iter", f] => (famOf? f).map .iter
   | _ => none
 
